@@ -217,12 +217,28 @@ func runC13(c *Ctx) {
 	if nStores < 2 {
 		c.R.Unk(rule, "stores", cfg, "", sprintf("%d stores to Client.protocolVersion found, expected constructor + downgrade", nStores))
 	}
-	// the downgrade follows the decode of the server hello
+	// the downgrade follows the decode of the server hello; the test may sit in the goroutine
+	// itself or in a method it calls (then its call site stands for it)
+	var downgradeSite ssa.Instruction
 	if downgradeIf != nil {
+		if downgradeIf.Parent() == hg {
+			downgradeSite = downgradeIf
+		} else {
+			for _, call := range core.Calls(hg) {
+				if sf := core.StaticFn(call); sf != nil && (sf == downgradeIf.Parent() || core.StaticReach(sf, 2)[downgradeIf.Parent()]) {
+					downgradeSite = call.(ssa.Instruction)
+				}
+			}
+		}
+	}
+	if downgradeIf != nil && downgradeSite == nil {
+		c.R.Bad(rule, core.FuncName(hg)+"/order", cfg, p.Pos(downgradeIf.Pos()), "the downgrade test is not executed by the handshake goroutine")
+	}
+	if downgradeSite != nil {
 		dec := core.FindCalls(hg, isClientMethod("decode"))
 		ok := false
 		for _, d := range dec {
-			if core.Dominates(d.(ssa.Instruction), downgradeIf) {
+			if core.Dominates(d.(ssa.Instruction), downgradeSite) {
 				ok = true
 			}
 		}
@@ -235,16 +251,49 @@ func runC13(c *Ctx) {
 
 	// ---- C13.addendum
 	rule = "C13.addendum"
-	c.R.Rule(rule, "the quota-key addendum is emitted only under a Feature.In gate (threshold = FeatureAddendum) evaluated on the negotiated revision - a load of Client.protocolVersion that, in the handshake goroutine, is dominated by the downgrade test - at the call site or inside encodeAddendum; the addendum is flushed")
+	c.R.Rule(rule, "the quota-key addendum is emitted only under a Feature.In gate (threshold = FeatureAddendum) evaluated on the negotiated revision - a load of Client.protocolVersion that, in the handshake goroutine, is dominated by the downgrade test - at the place in the goroutine that leads to the emission or around the emission itself (found by what it writes: the ChainBuffer callback that puts Client.quotaKey); the addendum is flushed")
 	func() {
-		add := p.Method(core.PkgCh, "Client", "encodeAddendum")
-		if !c.must(p, "(*ch.Client).encodeAddendum", add != nil) {
+		addK, _ := constOf(p, core.PkgProto, "FeatureAddendum")
+		// the emission: the ChainBuffer call whose callback writes Client.quotaKey (found by what it writes)
+		var emit ssa.Instruction
+		var add *ssa.Function
+		for _, fn := range append([]*ssa.Function{hg}, core.StaticReachList(hg)...) {
+			if fn == nil || pkgOf(fn) == nil || pkgOf(fn).Path() != core.PkgCh {
+				continue
+			}
+			for _, cc := range core.Calls(fn) {
+				f := core.CalleeFunc(cc)
+				if f == nil || !core.IsMethod(f, core.PkgProto, "Writer", "ChainBuffer") {
+					continue
+				}
+				cb := core.ClosureArg(cc, 1)
+				if cb == nil {
+					continue
+				}
+				for _, pc := range core.Calls(cb) {
+					if pf := core.CalleeFunc(pc); pf != nil && core.IsMethod(pf, core.PkgProto, "Buffer", "PutString") && core.FieldOrigin(pc.Common().Args[1], 0) == "Client.quotaKey" {
+						emit, add = cc.(ssa.Instruction), fn
+					}
+				}
+			}
+		}
+		if emit == nil {
+			c.R.Bad(rule, core.FuncName(hg), cfg, p.Pos(hg.Pos()), "the handshake goroutine never writes Client.quotaKey (no addendum)")
 			return
 		}
-		addK, _ := constOf(p, core.PkgProto, "FeatureAddendum")
-		calls := core.FindCalls(hg, isClientMethod("encodeAddendum"))
+		// its position in the goroutine: the emission itself or the call that leads to it
+		var calls []ssa.CallInstruction
+		if add == hg {
+			calls = append(calls, emit.(ssa.CallInstruction))
+		} else {
+			for _, call := range core.Calls(hg) {
+				if sf := core.StaticFn(call); sf != nil && (sf == add || core.StaticReach(sf, 2)[add]) {
+					calls = append(calls, call)
+				}
+			}
+		}
 		if len(calls) != 1 {
-			c.R.Bad(rule, core.FuncName(hg), cfg, p.Pos(hg.Pos()), sprintf("%d calls of encodeAddendum in the handshake goroutine", len(calls)))
+			c.R.Bad(rule, core.FuncName(hg), cfg, p.Pos(hg.Pos()), sprintf("%d places in the handshake goroutine write the addendum", len(calls)))
 			return
 		}
 		call := calls[0].(ssa.Instruction)
@@ -258,13 +307,13 @@ func runC13(c *Ctx) {
 					return false, false
 				}
 				if needDom {
-					if downgradeIf == nil {
+					if downgradeSite == nil {
 						return false, false
 					}
 					vi, ok := ver.(ssa.Instruction)
-					if !ok || !core.Dominates(downgradeIf, vi) && downgradeIf.Block() != vi.Block() {
-						// loads after the If: dominated by the If's block
-						if !downgradeIf.Block().Dominates(vi.Block()) {
+					if !ok || !core.Dominates(downgradeSite, vi) && downgradeSite.Block() != vi.Block() {
+						// loads after the test: dominated by its block
+						if !downgradeSite.Block().Dominates(vi.Block()) {
 							return false, false
 						}
 					}
@@ -275,13 +324,9 @@ func runC13(c *Ctx) {
 		}
 		outer := goodGate(hg, call, true)
 		inner := false
-		// inside encodeAddendum: the emission (ChainBuffer call) under a gate
-		for _, cc := range core.Calls(add) {
-			if f := core.CalleeFunc(cc); f != nil && core.IsMethod(f, core.PkgProto, "Writer", "ChainBuffer") {
-				if goodGate(add, cc.(ssa.Instruction), false) {
-					inner = true
-				}
-			}
+		// inside a helper: the emission itself under a gate
+		if add != hg && goodGate(add, emit, false) {
+			inner = true
 		}
 		if outer || inner {
 			c.R.Ok(rule, core.FuncName(hg)+"/gate", cfg, p.Pos(call.Pos()), sprintf("gated on the negotiated revision (call site: %v, inside encodeAddendum: %v)", outer, inner))
@@ -302,22 +347,7 @@ func runC13(c *Ctx) {
 		} else {
 			c.R.Ok(rule, core.FuncName(hg)+"/flush", cfg, p.Pos(call.Pos()), "flush follows the addendum")
 		}
-		// what is written is the quota key
-		okQ := false
-		for _, a := range add.AnonFuncs {
-			for _, cc := range core.Calls(a) {
-				if f := core.CalleeFunc(cc); f != nil && core.IsMethod(f, core.PkgProto, "Buffer", "PutString") {
-					if core.FieldOrigin(cc.Common().Args[1], 0) == "Client.quotaKey" {
-						okQ = true
-					}
-				}
-			}
-		}
-		if okQ {
-			c.R.Ok(rule, core.FuncName(add)+"/content", cfg, p.Pos(add.Pos()), "PutString(c.quotaKey)")
-		} else {
-			c.R.Bad(rule, core.FuncName(add)+"/content", cfg, p.Pos(add.Pos()), "the addendum does not carry Client.quotaKey")
-		}
+		c.R.Ok(rule, core.FuncName(add)+"/content", cfg, p.Pos(emit.Pos()), "PutString(c.quotaKey)")
 	}()
 
 	// ---- C13.fail
